@@ -2,7 +2,7 @@ import UgoVerif.Proofs.VMExec
 import UgoVerif.Spec.Sem
 import UgoVerif.Model.Compile
 import UgoVerif.Gen.Opcodes
-import UgoVerif.Proofs.CompSimStmt
+import UgoVerif.Proofs.CompSimProg
 /-
   C02 — compiled execution follows the documented source-level semantics.
 
@@ -17,7 +17,13 @@ import UgoVerif.Proofs.CompSimStmt
     fresh array of exactly the remaining arguments (`rest_eq_drop_args`: the same list the
     reference rule `Sem.bindArgs` binds), the other locals start as undefined;
   * consistency of the hand-written opcode / token numbers of the VM and compiler models
-    with the tables regenerated from opcodes.go and token/token.go.
+    with the tables regenerated from opcodes.go and token/token.go;
+  * two slices of the simulation theorem compile ⊑ Sem (section "compile ⊑ Sem" below):
+    `compile_expr_correct` (expressions over uncaptured scalar locals), `compile_stmt_correct` /
+    `compile_stmts_correct` (`e;`, `x := e`, `var x = e`, `x = e`, `x op= e`, blocks, `if` / `else`, `return`), with
+    the VM heap related to the reference heap modulo the reference semantics' variable boxes, and
+    the whole-script corollary `C02_fragment` (compile-model output, loaded and run by the VM
+    model's `Run`, returns what `Sem.runProgram` returns).
 
   `C02_full` (every script's outcome equals the reference semantics Spec/Sem) is NOT
   proved: it is tested by stream `sem` (general, call-heavy, tail-call and try-dense
@@ -371,39 +377,73 @@ theorem vm_tokens_match_source :
     VM.tokOfNat Gen.tok_Not = .Not ∧ VM.tokOfNat Gen.tok_Equal = .Equal ∧ VM.tokOfNat Gen.tok_NotEqual = .NotEqual := by
   decide
 
-/-! ### compile ⊑ Sem, first slice: expressions over uncaptured locals
+/-! ### compile ⊑ Sem: expressions and statements over uncaptured scalar locals
 
-  `compile_expr_correct`: let `e` be an expression of the fragment `ExprF` — int / uint / float / char /
-  bool / string / undefined literals, parentheses, unary operators, binary arithmetic, comparison and
-  bitwise operators, `==` `!=`, the jump-based `&&` `||`, `?:` (with or without a boolean literal as
-  condition) and identifiers that the compiler resolves to locals of the current function
-  (`localIdx cs`, computed from the compiler state).  Hypotheses, all explicit:
-  * `hc`: the TOTAL compile model (byte-identical with compiler.go: stream `compile`) compiles `e`
-    from state `cs` to `cs'` (offset `p = cs.insts.size`, end `q = cs'.insts.size`);
-  * `hcode`, `hK`: the function the VM runs has those bytes on `[p, q)` (later patches and appended
-    code are irrelevant) and the VM's constants are the objects of a pool extending `cs'.constants`;
-  * `hvm`: not aborted, stack of size 2048, the current frame runs that function with base pointer
-    `bp`, `lo ≤ sp`; `hip`: `ip = p - 1` (vm.go increments before the fetch); `hsp`: `need e` free slots;
-  * `hloc`: every local of the compiler's table is a box in the environment of the reference
-    semantics and the slot `bp + i < lo` of the VM, same value, slot not captured (no `*ObjectPtr`);
-  * `hh`: the reference semantics runs on a state with the VM's heap (it shares the object layer);
-  * `hsem`: for ANY fuel on which `Sem.evalExpr` returns (no `unsupported`, no Go panic) a result `r`.
-  Conclusion (`Outcome`):
-  * `r = .val v`: there is a fuel `n` such that `loopF F (n + k)` from `s` equals `loopF F k` from a state
-    `s'` (for every `k`), with `ip` at the end of the code, `sp + 1`, `v` in the new slot, every slot below the
-    old `sp` unchanged, frames / handlers / frame index / codes / constants / globals / modules / err
-    unchanged (`Same`), and the heap EQUAL to the heap the reference semantics leaves;
-  * `r = .thr a` (TypeError, ZeroDivisionError, … raised by an operator): the loop reaches, inside
-    some instruction, the call `failWith oe` (= `throwGenErr`: make the error object, then `throw` /
-    `handleThrownError`, whose mechanism Props/C03 covers) in a state `u` with the same control part and
-    the stack unchanged below the old `sp`, and `rtErrOfOpErr oe` run there returns the SAME address `a`
-    and leaves the SAME heap as the reference semantics: same error name, same message, same object.
-  Also: the reference interpreter's own state is untouched, the compile run only appended
-  instructions / constants (`Shape`), and the heap only grew (`Grow`).
+  The reference semantics (Spec/Sem) keeps every variable in a heap box, the VM keeps an uncaptured
+  local in a stack slot: the two heaps are NOT equal.  The relation between a VM state `s` and a
+  reference state `t` (Proofs/CompSimInv):
+  * `HeapRel s t`: `t.heap` is `s.heap` followed by cells that are all variable boxes (the fragment
+    allocates nothing else until an error object is made);
+  * `Static σ N env binds`, `Dyn binds t s bp`: `binds` lists the pairs (slot, box address) of the
+    variables in scope, shadowed ones included; a name the compiler resolves to slot `i`
+    (`σ = localIdx cs`, computed from the compiler's tables) is bound in `env` to a box `a` with
+    `(i, a) ∈ binds`; slots are below `N = nextIndex` of the tables; different pairs have different slots
+    and different boxes; box `a` lies behind the VM heap and holds the SCALAR that slot `bp + i` holds
+    (`LocalsOK` is the projection the expression theorem needs).
+  Scalars (`Scalar`: undefined, int, uint, float, char, bool, string, bytes) are the values the
+  fragment computes; on them the object layer shared by the VM model and the reference semantics
+  (`vBinaryOp`, `vUnary`, `vEqual`, `isFalsy`) neither reads nor writes the state
+  (Proofs/CompSimScalar), which is why the simulation does not depend on the heap relation.
 
-  Not covered yet (the ladder continues): statements, captured variables / closures / free
-  variables, calls, arrays / maps / index / selector / slice, loops, try / throw, globals, builtins,
-  imports, `const` literals (`constLit` scope), and the optimizer (C01).  -/
+  `compile_expr_correct`: `e` in `ExprF` (literals, `( )`, unary, binary, `==` `!=`, `&&` `||`, `?:`,
+  identifiers resolved to locals of the current function), compiled by the TOTAL compile model from
+  `cs` to `cs'`; the function the VM runs has those bytes on `[cs.insts.size, cs'.insts.size)`
+  (`hcode`), the constants are those of a pool extending `cs'.constants` (`hK`), `VMOk` (not aborted,
+  stack 2048, current frame runs `code`, base pointer `bp`, `lo ≤ sp`), `ip` in front of the code,
+  `need e` free slots, `LocalsOK`.  For EVERY fuel on which `Sem.evalExpr` returns `r` in state `t1`
+  (`Outcome`):
+  * `r = .val v`: the reference state is unchanged (`t = t1`), `v` is a scalar, and the VM loop gets
+    (`Reach`: `loopF (n + k)` from `s` = `loopF k` from `s'`, all `k`) to a state with `v` pushed, `ip` at
+    the end of the code, everything below the old `sp`, the control part (`Same`: frames, handlers,
+    frame index, codes, constants, globals, modules, err …) and the VM HEAP unchanged;
+  * `r = .thr a`: the VM loop reaches the call `failWith oe` (= `throwGenErr`) inside an instruction
+    with the VM heap and the control part unchanged, `oe = .named name msg`, and the reference
+    semantics' error (`a`, `t1`) is `rtErrOfOpErr oe` run in its own state `t`: both sides make the
+    error object from the same name and message (at different addresses: the heaps differ).
+
+  `compile_stmt_correct` / `compile_stmts_correct`: a statement (list) of `StmtF` — `e;`, `x := e`,
+  `var x = e`, `x = e`, `x op= e`, `{ … }`, `if c { … }`, `if c { … } else { … }` / `else if`, `return`, `return e`,
+  the empty statement — compiled from `cs` to `cs'` in a state with a function table, outside `try`,
+  whose slots fit (`CsOK`), the names of `B` resolved to locals (`Cov`); `L` bounds the function's
+  `NumLocals` (`fnMax cs'.tables ≤ L`), the local slots `[bp, bp + L)` lie below `sp`.  For EVERY fuel
+  on which `Sem.execStmt` / `Sem.execList` completes with `c` (`OutS`):
+  * `normal`: the VM gets behind the code with `sp` where it was, the stack unchanged outside the
+    local slots, VM heap and control part unchanged (`Frm`), and the states are related again through
+    an extension `binds'` of `binds` (for the symbols and `nextIndex` of `cs'`, the new environment);
+  * `ret v`: the VM stands in front of a RETURN instruction, with `v` (a scalar) on top of the stack
+    for RETURN 1, `v = undefined` for RETURN 0; `HeapRel` holds;
+  * `thr a`: as for expressions (`failWith oe`, `oe` named, states related when the error is made);
+  * `break` / `continue` do not occur.
+  What `Model/Sym` (symbol_table.go) contributes (Proofs/CompSimTab): `localIdx` is a lookup through
+  the block tables of the function; a block (`Fork(true)` … `Parent`) leaves the enclosing tables
+  unchanged up to `maxDefinition`, so the slot of a variable is stable while it is in scope and the
+  block's slots are reused afterwards (their pairs leave `binds`); `DefineLocal` of a new name takes
+  slot `nextIndex`, above every slot in use, and raises the function's `NumLocals` above it.
+
+  `C02_fragment`: a whole script of the fragment (no `param`), compiled by `Compile.compileFile`,
+  loaded into a fresh VM (`loadProg`) and run by `VM.runFrom` (prologue, loop, epilogue): whatever
+  `Sem.runProgram` returns on the heap the VM starts with, `Run` returns — the same value for every
+  large enough step budget, or an uncaught `*RuntimeError` with the same name and message — provided
+  the script ends with `return` or `Bytecode()` appended its RETURN (it does unless the stream ends in
+  a RETURN no jump passes over; that scan argument is not proved).  `C02_fragment_list` is the
+  same for `Sem.execList` with the three completions separated (no side condition for `ret` / `thr`).
+
+  Not covered (the ladder continues): loops (`break` / `continue` patching), captured variables /
+  closures / free variables, calls, arrays / maps / index / selector / slice and every other value
+  with a heap address (the heap relation then needs an address map), `try` / `catch` / `finally` /
+  `throw` (C03), globals, builtins, `const` declarations, `var` without value or with several names, `++` / `--`, destructuring,
+  `param`, imports / modules, `if` with an init statement or a boolean literal as condition, and the
+  optimizer (C01).  -/
 
 open UgoVerif.CompSim in
 /-- **compile_expr_correct** — statement in the header comment of this section. -/
@@ -416,11 +456,10 @@ theorem compile_expr_correct (F : FloatOps) (e : Ast.Expr) (cs cs' : Compile.CSt
     (hvm : VMOk K code bp lo s)
     (hip : s.ip + 1 = (cs.insts.size : Int))
     (hsp : s.sp + need e ≤ 2048)
-    (hh : t.heap = s.heap)
-    (hloc : LocalsOK (localIdx cs) env s bp lo)
+    (hloc : LocalsOK (localIdx cs) env t s bp lo)
     (fuel : Nat) (ss ss1 : Sem.SemSt) (r : Sem.ER) (t1 : State)
     (hsem : exec ((Sem.evalExpr F fuel env e).run ss) t = (.ok (r, ss1), t1)) :
-    ss1 = ss ∧ Shape cs cs' ∧ Grow t t1 ∧ Outcome F s t1.heap cs'.insts.size r := by
+    ss1 = ss ∧ Shape cs cs' ∧ Outcome F s t t1 cs'.insts.size r := by
   have henv : ∀ n, (localIdx cs n).isSome → (Sem.lookupEnv n env).isSome := by
     intro n hn
     cases hi : localIdx cs n with
@@ -429,65 +468,103 @@ theorem compile_expr_correct (F : FloatOps) (e : Ast.Expr) (cs cs' : Compile.CSt
       obtain ⟨a, v, hl, _⟩ := hloc n i hi
       simp [hl]
   rw [evalExpr_eq_evalF F (localIdx cs) env henv fuel e hF ss] at hsem
-  unfold withSt at hsem
-  obtain ⟨r', t', h1, h2⟩ := exec_bind_inv hsem
-  obtain ⟨h3, rfl⟩ := exec_pure_inv h2
-  simp only [Prod.mk.injEq] at h3
-  obtain ⟨rfl, rfl⟩ := h3
+  obtain ⟨rfl, h1⟩ := withSt_inv hsem
   obtain ⟨sh, sim⟩ := good_all F e cs cs' hc hF
-  have hg := (grows_evalF F fuel env e).h t
-  rw [h1] at hg
-  exact ⟨rfl, sh, hg, sim K code bp lo env s t fuel _ _ hK hcode hvm hip hsp hh hloc h1⟩
-
+  exact ⟨rfl, sh, sim K code bp lo env s t fuel _ _ hK hcode hvm hip hsp hloc h1⟩
 
 open UgoVerif.CompSim in
-/-- **compile_exprstmt_correct** — the first statement on top of the expression slice: the expression
-    statement `e;` (code of `e`, then POP), `e` in `ExprF`, same hypotheses as `compile_expr_correct`.
-    If the reference semantics completes normally, the VM gets behind the POP with `sp` where it was, the
-    stack below it, frames and handlers unchanged and the heap equal; if it completes with a thrown
-    error, the VM is at `failWith` with the same error object.  No other completion is possible, the
-    environment and the interpreter state are unchanged. -/
-theorem compile_exprstmt_correct (F : FloatOps) (pos : Ast.Pos) (e : Ast.Expr) (cs cs' : Compile.CState)
-    (hc : Compile.runCM (Compile.compileStmt (.expr pos e)) cs = (.ok (), cs'))
-    (hF : ExprF (localIdx cs) e = true)
-    (K : Array Compile.Const) (code : Code) (bp lo : Nat) (env : Sem.Env) (s t : State)
+/-- **compile_stmt_correct** — one statement of the fragment `StmtF`; statement in the header comment. -/
+theorem compile_stmt_correct (F : FloatOps) (B : List String) (st : Ast.Stmt) (hF : StmtF B st = true)
+    (cs cs' : Compile.CState) (hc : Compile.runCM (Compile.compileStmt st) cs = (.ok (), cs'))
+    (hcov : Cov B (localIdx cs)) (hok : CsOK cs)
+    (K : Array Compile.Const) (code : Code) (bp L : Nat) (env : Sem.Env) (binds : List (Nat × Addr)) (s t : State)
     (hK : Compile.IsPre cs'.constants K)
     (hcode : CodeHas code cs'.insts cs.insts.size)
-    (hvm : VMOk K code bp lo s)
+    (hvm : VMOk K code bp (bp + L) s)
+    (hip : s.ip + 1 = (cs.insts.size : Int))
+    (hsp : s.sp + needS st ≤ 2048)
+    (hL : fnMax cs'.tables ≤ L)
+    (hst : Static (localIdx cs) (Compile.nextIndex cs.tables) env binds) (hdy : Dyn binds t s bp)
+    (fuel : Nat) (ss ss' : Sem.SemSt) (c : Sem.Comp) (env' : Sem.Env) (t' : State)
+    (hsem : exec ((Sem.execStmt F fuel env st).run ss) t = (.ok ((c, env'), ss'), t')) :
+    ss = ss' ∧ StEff cs cs' ∧ CsOK cs' ∧ Cov (defsOf B st) (localIdx cs') ∧
+      OutS F code cs'.insts.size bp L (localIdx cs') (Compile.nextIndex cs'.tables) binds s t' env' c := by
+  obtain ⟨h1, h2, h3, h4⟩ := good_stmt F st B hF cs cs' hc hcov hok
+  obtain ⟨h5, h6⟩ := h4 fuel K code bp L env binds s t ss ss' c env' t' hK hcode hvm hip hsp hL hst hdy hsem
+  exact ⟨h5, h1, h2, h3, h6⟩
+
+open UgoVerif.CompSim in
+/-- **compile_stmts_correct** — a statement list of the fragment; statement in the header comment. -/
+theorem compile_stmts_correct (F : FloatOps) (B : List String) (sts : List Ast.Stmt) (hF : StmtsF B sts = true)
+    (cs cs' : Compile.CState) (hc : Compile.runCM (Compile.compileStmts sts) cs = (.ok (), cs'))
+    (hcov : Cov B (localIdx cs)) (hok : CsOK cs)
+    (K : Array Compile.Const) (code : Code) (bp L : Nat) (env : Sem.Env) (binds : List (Nat × Addr)) (s t : State)
+    (hK : Compile.IsPre cs'.constants K)
+    (hcode : CodeHas code cs'.insts cs.insts.size)
+    (hvm : VMOk K code bp (bp + L) s)
+    (hip : s.ip + 1 = (cs.insts.size : Int))
+    (hsp : s.sp + needL sts ≤ 2048)
+    (hL : fnMax cs'.tables ≤ L)
+    (hst : Static (localIdx cs) (Compile.nextIndex cs.tables) env binds) (hdy : Dyn binds t s bp)
+    (fuel : Nat) (ss ss' : Sem.SemSt) (c : Sem.Comp) (env' : Sem.Env) (t' : State)
+    (hsem : exec ((Sem.execList F fuel env sts).run ss) t = (.ok ((c, env'), ss'), t')) :
+    ss = ss' ∧ StEff cs cs' ∧ CsOK cs' ∧ Cov (defsL B sts) (localIdx cs') ∧
+      OutS F code cs'.insts.size bp L (localIdx cs') (Compile.nextIndex cs'.tables) binds s t' env' c := by
+  obtain ⟨h1, h2, h3, h4⟩ := good_stmts F sts B hF cs cs' hc hcov hok
+  obtain ⟨h5, h6⟩ := h4 fuel K code bp L env binds s t ss ss' c env' t' hK hcode hvm hip hsp hL hst hdy hsem
+  exact ⟨h5, h1, h2, h3, h6⟩
+
+open UgoVerif.CompSim in
+/-- **compile_exprstmt_correct** — the expression statement `e;` (code of `e`, then POP): the instance
+    `st = e;` of `compile_stmt_correct`. -/
+theorem compile_exprstmt_correct (F : FloatOps) (B : List String) (pos : Ast.Pos) (e : Ast.Expr)
+    (hF : ExprF (bnd B) e = true)
+    (cs cs' : Compile.CState) (hc : Compile.runCM (Compile.compileStmt (.expr pos e)) cs = (.ok (), cs'))
+    (hcov : Cov B (localIdx cs)) (hok : CsOK cs)
+    (K : Array Compile.Const) (code : Code) (bp L : Nat) (env : Sem.Env) (binds : List (Nat × Addr)) (s t : State)
+    (hK : Compile.IsPre cs'.constants K)
+    (hcode : CodeHas code cs'.insts cs.insts.size)
+    (hvm : VMOk K code bp (bp + L) s)
     (hip : s.ip + 1 = (cs.insts.size : Int))
     (hsp : s.sp + need e ≤ 2048)
-    (hh : t.heap = s.heap)
-    (hloc : LocalsOK (localIdx cs) env s bp lo)
-    (fuel : Nat) (ss ss1 : Sem.SemSt) (c : Sem.Comp) (env' : Sem.Env) (t1 : State)
-    (hsem : exec ((Sem.execStmt F fuel env (.expr pos e)).run ss) t = (.ok ((c, env'), ss1), t1)) :
-    ss1 = ss ∧ env' = env ∧ Shape cs cs' ∧ OutcomeS F s t1.heap cs'.insts.size c := by
-  have henv : ∀ n, (localIdx cs n).isSome → (Sem.lookupEnv n env).isSome := by
-    intro n hn
-    cases hi : localIdx cs n with
-    | none => simp [hi] at hn
-    | some i =>
-      obtain ⟨a, v, hl, _⟩ := hloc n i hi
-      simp [hl]
-  cases fuel with
-  | zero =>
-    rw [execStmt_zero, run_liftM] at hsem
-    unfold withSt at hsem
-    obtain ⟨_, _, h1, _⟩ := exec_bind_inv hsem
-    cases h1
-  | succ fuel =>
-    rw [run_execStmt_expr F (localIdx cs) env henv fuel pos e hF ss] at hsem
-    unfold withSt at hsem
-    obtain ⟨p, t', h1, h2⟩ := exec_bind_inv hsem
-    obtain ⟨h3, rfl⟩ := exec_pure_inv h2
-    simp only [Prod.mk.injEq] at h3
-    obtain ⟨rfl, rfl⟩ := h3
-    obtain ⟨r, t2, h4, h5⟩ := exec_bind_inv h1
-    obtain ⟨h6, rfl⟩ := exec_pure_inv h5
-    obtain ⟨sh, sim⟩ := sim_exprStmt F pos e cs cs' hc hF
-    have o := sim K code bp lo env s t fuel r _ hK hcode hvm hip hsp hh hloc h4
-    simp only [Prod.mk.injEq] at h6
-    obtain ⟨rfl, rfl⟩ := h6
-    exact ⟨rfl, rfl, sh, o⟩
+    (hL : fnMax cs'.tables ≤ L)
+    (hst : Static (localIdx cs) (Compile.nextIndex cs.tables) env binds) (hdy : Dyn binds t s bp)
+    (fuel : Nat) (ss ss' : Sem.SemSt) (c : Sem.Comp) (env' : Sem.Env) (t' : State)
+    (hsem : exec ((Sem.execStmt F fuel env (.expr pos e)).run ss) t = (.ok ((c, env'), ss'), t')) :
+    ss = ss' ∧ OutS F code cs'.insts.size bp L (localIdx cs') (Compile.nextIndex cs'.tables) binds s t' env' c := by
+  obtain ⟨h1, _, _, _, h2⟩ := compile_stmt_correct F B (.expr pos e) hF cs cs' hc hcov hok K code bp L env binds s t hK hcode
+    hvm hip hsp hL hst hdy fuel ss ss' c env' t' hsem
+  exact ⟨h1, h2⟩
+
+open UgoVerif.CompSim in
+/-- **C02_fragment_list** — whole scripts of the fragment against `Sem.execList`: compile-model
+    output, loaded and run by the VM model; the three completions separately (`ProgOut`). -/
+theorem C02_fragment_list (F : FloatOps) (builtins : List (String × Nat)) (disabled : List String) (file : List Ast.Stmt)
+    (bc : Compile.Bytecode) (hF : StmtsF [] file = true) (hc : Compile.compileFile builtins disabled file = .ok bc)
+    (hsp : bc.main.numLocals + needL file ≤ 2048) (t : State) (hrel : HeapRel (startState bc) t)
+    (fuel : Nat) (ss ss' : Sem.SemSt) (c : Sem.Comp) (env' : Sem.Env) (t' : State)
+    (hsem : exec ((Sem.execList F fuel [[]] file).run ss) t = (.ok ((c, env'), ss'), t')) :
+    ss = ss' ∧ ProgOut F bc (streamSize builtins disabled file < bc.main.insts.size) t' c :=
+  prog_sim F hF hc hsp t hrel fuel ss ss' c env' t' hsem
+
+open UgoVerif.CompSim in
+/-- **C02_fragment** — whole scripts of the fragment: what `Sem.runProgram` returns (on a heap that
+    is the VM's start heap, possibly followed by boxes), `VM.Run` of the compile model's output
+    returns: the same value for every large enough step budget, or an uncaught error with the same
+    name and message. -/
+theorem C02_fragment (F : FloatOps) (builtins : List (String × Nat)) (disabled : List String) (file : List Ast.Stmt)
+    (bc : Compile.Bytecode) (hF : StmtsF [] file = true) (hc : Compile.compileFile builtins disabled file = .ok bc)
+    (hsp : bc.main.numLocals + needL file ≤ 2048)
+    (happ : streamSize builtins disabled file < bc.main.insts.size ∨ lastIsReturn file = true)
+    (t : State) (hrel : HeapRel (startState bc) t)
+    (fuel : Nat) (ss ss' : Sem.SemSt) (res : Sem.Result) (t' : State)
+    (hsem : exec ((Sem.runProgram F fuel file []).run ss) t = (.ok (res, ss'), t')) :
+    ss = ss' ∧
+    match res with
+    | .value v => ∃ n, ∀ fuel, n ≤ fuel → (runFrom F fuel .nil [] (loadProg bc)).1 = VM.Outcome.value v
+    | .error a => ∃ (nm msg : String) (n : Nat), ErrIs t'.heap a nm msg ∧ ∀ fuel, n ≤ fuel →
+        ∃ a' sfin, runFrom F fuel .nil [] (loadProg bc) = (VM.Outcome.error (.rt a'), sfin) ∧ ErrIs sfin.heap a' nm msg :=
+  prog_sim_run F hF hc hsp happ t hrel fuel ss ss' res t' hsem
 
 /-! #### non-vacuity: `(1 + x) * 2 < 7 || !b` with `x = 3`, `b = false` -/
 namespace Ex
@@ -508,22 +585,20 @@ def cs0 : Compile.CState :=
 
 def cs1 : Compile.CState := (Compile.runCM (Compile.compileExpr e0) cs0).2
 
-def constV : Compile.Const → V
-  | .val v => Eval.scalarOfCVal v
-  | .fn _ => .nil
-
-/-- the VM in front of the expression's code: frame 0 runs the code, `x = 3` and `b = false` in the
-    local slots 0 and 1 (and, for the reference semantics, in the boxes 0 and 1 of the heap) -/
 def code0 : Code := { insts := cs1.insts, numParams := 0, numLocals := 2, variadic := false }
 
+/-- the VM in front of the expression's code: frame 0 runs the code, `x = 3` and `b = false` in the
+    local slots 0 and 1; the VM heap holds the function only -/
 def s0 : State :=
-  { newState #[code0]
-      #[.box (.int 3#64), .box (.bool false), .fn 0 none] (cs1.constants.map constV) 2 0 with
+  { newState #[code0] #[.fn 0 none] (cs1.constants.map constV) 0 0 with
     stack := ((Array.replicate stackSize V.nil).set! 0 (.int 3#64)).set! 1 (.bool false)
     sp := 2, ip := -1, frameIndex := 1
-    frames := emptyFrames.modify 0 fun f => { f with fn := some 2, bp := 0 } }
+    frames := emptyFrames.modify 0 fun f => { f with fn := some 0, bp := 0 } }
 
-def env0 : Sem.Env := [[("x", 0), ("b", 1)]]
+/-- the state of the reference semantics: the VM heap followed by the boxes of `x` and `b` -/
+def t0 : State := { s0 with heap := #[.fn 0 none, .box (.int 3#64), .box (.bool false)] }
+
+def env0 : Sem.Env := [[("x", 1), ("b", 2)]]
 
 def F0 : FloatOps := ⟨fun a _ => a, fun a _ => a, fun a _ => a, fun a _ => a, id, id, id⟩
 
@@ -533,8 +608,8 @@ def isOkU {ε} : Except ε Unit → Bool | .ok _ => true | .error _ => false
     ORJUMP 26; GETLOCAL 1; UNARY ! -/
 example : cs1.insts = #[1, 0, 0, 5, 0, 8, 12, 1, 0, 1, 8, 14, 1, 0, 2, 8, 39, 15, 0, 0, 0, 26, 5, 1, 9, 42] := by
   decide +kernel
-/-- evaluated agreement on this instance: the reference semantics returns `true` … -/
-example : (match (exec ((Sem.evalExpr F0 20 env0 e0).run {}) s0).1 with
+/-- evaluated agreement on this instance: the reference semantics (on its own heap) returns `true` … -/
+example : (match (exec ((Sem.evalExpr F0 20 env0 e0).run {}) t0).1 with
     | .ok (.val v, _) => v == .bool true | _ => false) = true := by decide +kernel
 /-- … and ten instructions of the VM model leave `true` in slot 2, `sp = 3`, `ip = 25` -/
 example : (match exec (loopF F0 10) s0 with
@@ -550,36 +625,30 @@ theorem hc0 : Compile.runCM (Compile.compileExpr e0) cs0 = (.ok (), cs1) := by
     | ok u => rfl
     | error e => simp [isOkU] at h
 
-
 attribute [irreducible] cs1
-
-theorem constsOK_map (K : Array Compile.Const) : ConstsOK K (K.map constV) := by
-  intro i cv h
-  rw [Array.getElem?_map, h]
-  rfl
 
 theorem hvm0 : VMOk cs1.constants code0 0 2 s0 where
   abort := rfl
   size := by decide +kernel
-  code := ⟨2, 0, none, by decide +kernel, by decide +kernel, rfl⟩
+  code := ⟨0, 0, none, by decide +kernel, by decide +kernel, rfl⟩
   bp := by decide +kernel
   consts := constsOK_map _
   lo := by decide +kernel
 
-theorem hloc0 : LocalsOK (localIdx cs0) env0 s0 0 2 := by
+theorem hloc0 : LocalsOK (localIdx cs0) env0 t0 s0 0 2 := by
   intro n i h
   by_cases hx : n = "x"
   · subst hx
     have h0 : localIdx cs0 "x" = some 0 := by decide +kernel
     rw [h0] at h
     injection h with h; subst h
-    exact ⟨0, .int 3#64, by decide +kernel, by decide +kernel, by decide, by decide +kernel, by intro b hb; cases hb⟩
+    exact ⟨1, .int 3#64, by decide +kernel, by decide +kernel, by decide, by decide +kernel, trivial⟩
   · by_cases hb : n = "b"
     · subst hb
       have h0 : localIdx cs0 "b" = some 1 := by decide +kernel
       rw [h0] at h
       injection h with h; subst h
-      exact ⟨1, .bool false, by decide +kernel, by decide +kernel, by decide, by decide +kernel, by intro b hb; cases hb⟩
+      exact ⟨2, .bool false, by decide +kernel, by decide +kernel, by decide, by decide +kernel, trivial⟩
     · exfalso
       have h1 : ("x" == n) = false := by simpa using fun h' => hx h'.symm
       have h2 : ("b" == n) = false := by simpa using fun h' => hb h'.symm
@@ -591,84 +660,90 @@ theorem hip0 : s0.ip + 1 = (cs0.insts.size : Int) := by decide +kernel
 theorem hsp0 : s0.sp + need e0 ≤ 2048 := by decide +kernel
 theorem hsz0 : cs1.insts.size = 26 := by decide +kernel
 
-/-- the hypotheses of `compile_expr_correct` are satisfiable, and on this instance it says: the VM
-    gets from `s0` to a state with `true` pushed, `sp = 3`, `ip` at the end of the code -/
-example : ∃ s', Reach F0 s0 s' ∧ s'.stack[2]! = .bool true ∧ s'.sp = 3 ∧ s'.ip + 1 = 26 ∧ s'.frames = s0.frames := by
-  have hres : (match (exec ((Sem.evalExpr F0 20 env0 e0).run {}) s0).1 with
+/-- the hypotheses of `compile_expr_correct` are satisfiable (the reference heap has two boxes the VM
+    heap does not have), and on this instance it says: the VM gets from `s0` to a state with `true`
+    pushed, `sp = 3`, `ip` at the end of the code, its heap unchanged -/
+example : ∃ s', Reach F0 s0 s' ∧ s'.stack[2]! = .bool true ∧ s'.sp = 3 ∧ s'.ip + 1 = 26 ∧ s'.frames = s0.frames ∧
+    s'.heap = s0.heap := by
+  have hres : (match (exec ((Sem.evalExpr F0 20 env0 e0).run {}) t0).1 with
       | .ok (.val (.bool true), _) => true | _ => false) = true := by decide +kernel
-  cases hr : exec ((Sem.evalExpr F0 20 env0 e0).run {}) s0 with
+  cases hr : exec ((Sem.evalExpr F0 20 env0 e0).run {}) t0 with
   | mk r t1 =>
     rw [hr] at hres
     match r, hres with
     | .ok (.val (.bool true), ss1), _ =>
-      have h := compile_expr_correct F0 e0 cs0 cs1 hc0 hF0 cs1.constants code0 0 2 env0 s0 s0
-        (Compile.IsPre.refl _) hcode0 hvm0 hip0 hsp0 rfl hloc0 20 {} ss1 _ t1 hr
-      obtain ⟨_, _, _, s', hreach, hsame, _, hip, hsp, _, hget⟩ := h
-      exact ⟨s', hreach, hget, by rw [hsp]; rfl, by rw [hip, hsz0]; rfl, hsame.frames⟩
+      have h := compile_expr_correct F0 e0 cs0 cs1 hc0 hF0 cs1.constants code0 0 2 env0 s0 t0
+        (Compile.IsPre.refl _) hcode0 hvm0 hip0 hsp0 hloc0 20 {} ss1 _ t1 hr
+      obtain ⟨_, _, _, _, s', hreach, hsame, hheap, hip, hsp, _, hget⟩ := h
+      exact ⟨s', hreach, hget, by rw [hsp]; rfl, by rw [hip, hsz0]; rfl, hsame.frames, hheap⟩
 
+/-! #### non-vacuity of the statement slice and of `C02_fragment`:
+    `x := 3; var y = x * 2; if y > 5 { x = x + y } else { x = 0 }; return x - 1` -/
 
-/-! the same instance as an expression statement `(1 + x) * 2 < 7 || !b;` -/
+def file0 : List Stmt :=
+  [ .assign 1 tDefine [.ident 1 "x"] [.int 6 3#64],
+    .declValue 8 tVar [(some 0, [(12, "y")], [some (.binary 16 tMul (.ident 16 "x") (.int 20 2#64))])],
+    .if_ 20 none (.binary 23 tGreater (.ident 23 "y") (.int 27 5#64)) 29
+      [.assign 31 tAssign [.ident 31 "x"] [.binary 35 tAdd (.ident 35 "x") (.ident 39 "y")]]
+      (some (.block 48 [.assign 50 tAssign [.ident 50 "x"] [.int 54 0#64]])),
+    .return_ 59 (some (.binary 66 tSub (.ident 66 "x") (.int 70 1#64))) ]
 
-def cs2 : Compile.CState := (Compile.runCM (Compile.compileStmt (.expr 12 e0)) cs0).2
-def code2 : Code := { insts := cs2.insts, numParams := 0, numLocals := 2, variadic := false }
-def s2 : State :=
-  { newState #[code2]
-      #[.box (.int 3#64), .box (.bool false), .fn 0 none] (cs2.constants.map constV) 2 0 with
-    stack := ((Array.replicate stackSize V.nil).set! 0 (.int 3#64)).set! 1 (.bool false)
-    sp := 2, ip := -1, frameIndex := 1
-    frames := emptyFrames.modify 0 fun f => { f with fn := some 2, bp := 0 } }
+def bc0 : Compile.Bytecode :=
+  match Compile.compileFile [] [] file0 with
+  | .ok bc => bc
+  | .error _ => default
 
-theorem hc2 : Compile.runCM (Compile.compileStmt (.expr 12 e0)) cs0 = (.ok (), cs2) := by
-  have h : isOkU (Compile.runCM (Compile.compileStmt (.expr 12 e0)) cs0).1 = true := by decide +kernel
-  unfold cs2
-  cases hr : Compile.runCM (Compile.compileStmt (.expr 12 e0)) cs0 with
-  | mk r c =>
-    rw [hr] at h
-    cases r with
-    | ok u => rfl
-    | error e => simp [isOkU] at h
+theorem hcF : Compile.compileFile [] [] file0 = .ok bc0 := by
+  have h : (match Compile.compileFile [] [] file0 with | .ok _ => true | .error _ => false) = true := by decide +kernel
+  unfold bc0
+  cases hr : Compile.compileFile [] [] file0 with
+  | ok bc => rfl
+  | error e => rw [hr] at h; cases h
 
-attribute [irreducible] cs2
+/-- the script is in the fragment, the stack suffices, it ends with `return` -/
+theorem hFF : StmtsF [] file0 = true := by decide +kernel
+theorem hspF : bc0.main.numLocals + needL file0 ≤ 2048 := by decide +kernel
+theorem hlastF : lastIsReturn file0 = true := by decide +kernel
 
-theorem hvm2 : VMOk cs2.constants code2 0 2 s2 where
-  abort := rfl
-  size := by decide +kernel
-  code := ⟨2, 0, none, by decide +kernel, by decide +kernel, rfl⟩
-  bp := by decide +kernel
-  consts := constsOK_map _
-  lo := by decide +kernel
+/-- the compiled script: two locals; CONSTANT 0 (3); DEFINELOCAL 0; GETLOCAL 0; CONSTANT 1 (2); BINARYOP *;
+    DEFINELOCAL 1; GETLOCAL 1; CONSTANT 2 (5); BINARYOP >; JUMPFALSY 39; GETLOCAL 0; GETLOCAL 1; BINARYOP +;
+    SETLOCAL 0; JUMP 44; CONSTANT 3 (0); SETLOCAL 0; GETLOCAL 0; CONSTANT 4 (1); BINARYOP -; RETURN 1
+    (no RETURN appended: the script ends with `return`) -/
+example : bc0.main.insts = #[1, 0, 0, 40, 0, 5, 0, 1, 0, 1, 8, 14, 40, 1, 5, 1, 1, 0, 2, 8, 40, 13, 0, 0, 0, 39, 5, 0, 5, 1,
+    8, 12, 6, 0, 12, 0, 0, 0, 44, 1, 0, 3, 6, 0, 5, 0, 1, 0, 4, 8, 13, 39, 1] := by decide +kernel
 
-theorem hloc2 : LocalsOK (localIdx cs0) env0 s2 0 2 := by
-  intro n i h
-  obtain ⟨a, v, h1, h2, h3, h4, h5⟩ := hloc0 n i h
-  exact ⟨a, v, h1, h2, h3, h4, h5⟩
+/-- evaluated: the reference semantics returns 8 on the VM's start heap … -/
+theorem semF : (match (exec ((Sem.runProgram F0 40 file0 []).run {}) (startState bc0)).1 with
+    | .ok (.value v, _) => decide (v = .int 8#64) | _ => false) = true := by decide +kernel
+/-- … and so does the VM model's `Run` of the compile model's output -/
+example : (match (runFrom F0 100 .nil [] (loadProg bc0)).1 with
+    | .value v => decide (v = .int 8#64) | _ => false) = true := by decide +kernel
 
-theorem hcode2 : CodeHas code2 cs2.insts cs0.insts.size := fun _ _ _ => rfl
-theorem hip2 : s2.ip + 1 = (cs0.insts.size : Int) := by decide +kernel
-theorem hsp2 : s2.sp + need e0 ≤ 2048 := by decide +kernel
-theorem hsz2 : cs2.insts.size = 27 := by decide +kernel
+theorem heapRel_refl (s : State) : HeapRel s s :=
+  ⟨Nat.le_refl _, fun _ _ => rfl, fun a h1 h2 => absurd h2 (by omega)⟩
 
-/-- the hypotheses of `compile_exprstmt_correct` are satisfiable; on this instance: the VM gets behind
-    the POP with `sp = 2` again -/
-example : ∃ s', Reach F0 s2 s' ∧ s'.sp = 2 ∧ s'.ip + 1 = 27 ∧ s'.stack[0]! = .int 3#64 := by
-  have hres : (match (exec ((Sem.execStmt F0 21 env0 (.expr 12 e0)).run {}) s2).1 with
-      | .ok ((.normal, _), _) => true | _ => false) = true := by decide +kernel
-  cases hr : exec ((Sem.execStmt F0 21 env0 (.expr 12 e0)).run {}) s2 with
+/-- the hypotheses of `C02_fragment` are satisfiable, and on this script it says: for every large
+    enough step budget the VM's `Run` returns 8 -/
+example : ∃ n, ∀ fuel, n ≤ fuel → (runFrom F0 fuel .nil [] (loadProg bc0)).1 = VM.Outcome.value (.int 8#64) := by
+  have hres := semF
+  cases hr : exec ((Sem.runProgram F0 40 file0 []).run {}) (startState bc0) with
   | mk r t1 =>
     rw [hr] at hres
     match r, hres with
-    | .ok ((.normal, env'), ss1), _ =>
-      have h := compile_exprstmt_correct F0 12 e0 cs0 cs2 hc2 hF0 cs2.constants code2 0 2 env0 s2 s2
-        (Compile.IsPre.refl _) hcode2 hvm2 hip2 hsp2 rfl hloc2 21 {} ss1 _ env' t1 hr
-      obtain ⟨_, _, _, s', hreach, _, _, hip, hsp, hag⟩ := h
-      refine ⟨s', hreach, by rw [hsp]; rfl, by rw [hip, hsz2]; rfl, ?_⟩
-      rw [hag.2 0 (by decide +kernel)]
-      decide +kernel
+    | .ok (.value v, ss1), hv =>
+      have hv' : v = .int 8#64 := of_decide_eq_true hv
+      subst hv'
+      exact (C02_fragment F0 [] [] file0 bc0 hFF hcF hspF (.inr hlastF) (startState bc0) (heapRel_refl _) 40 {} ss1
+        _ t1 hr).2
 
 end Ex
-/-- the source-level statement (not proved; tested by stream `sem`; `compile_expr_correct` above is its
-    first proved slice: expressions over uncaptured locals.  Still only tested: statements and
-    everything named at the end of the section above) -/
+/-- the source-level statement (not proved; tested by stream `sem`).  Proved slices of it:
+    `compile_expr_correct`, `compile_stmt_correct`, `compile_stmts_correct`, `C02_fragment` above —
+    scripts built from expression statements, `:=` / `var` / `=` / compound assignment on uncaptured scalar
+    locals, blocks, `if` / `else`, `return`.  Still only tested: loops, captured variables / closures,
+    calls, containers (arrays, maps, index, selector, slice), `try` / `catch` / `finally` / `throw`,
+    globals, modules / imports, builtins, `const` declarations, `++` / `--`, destructuring,
+    `param`, and the fall-off-the-end RETURN of `Bytecode()` when the stream ends in a RETURN -/
 def C02_full (Script Input Outcome : Type) (impl sem : Script → Input → Option Outcome) : Prop :=
   ∀ p i o₁ o₂, impl p i = some o₁ → sem p i = some o₂ → o₁ = o₂
 
